@@ -49,7 +49,7 @@ func emitSelftest(repo string, sp *spec, dir string) (err error) {
 		}
 	}()
 	// reuse the front end: load and type-check exactly as for the translation
-	T := &translator{repo: repo, pkgs: map[string]*pkgInfo{}, byObj: map[types.Object]*funcInfo{}, globals: map[types.Object]string{}}
+	T := &translator{repo: repo, pkgs: map[string]*pkgInfo{}, byObj: map[types.Object]*funcInfo{}, globals: map[types.Object]string{}, sp: sp}
 	var subj bytes.Buffer
 	imports := map[string]string{} // path -> name
 	var drv bytes.Buffer
@@ -88,7 +88,37 @@ func emitSelftest(repo string, sp *spec, dir string) (err error) {
 		// the zero-copy casts of slog-agent/util are ordinary conversions here (the translation treats them as the
 		// identity on list N; aliasing is not represented on either side)
 		ast.Inspect(n, func(n ast.Node) bool {
+			// calls listed in ignore_calls (logging) are dropped, as in the translation
+			if blk, isBlk := n.(*ast.BlockStmt); isBlk {
+				for i, st := range blk.List {
+					if es, isEs := st.(*ast.ExprStmt); isEs {
+						if call, isCall := es.X.(*ast.CallExpr); isCall {
+							if sel, isSel := call.Fun.(*ast.SelectorExpr); isSel {
+								if id, isId := sel.X.(*ast.Ident); isId {
+									if pn, isPkg := p.info.Uses[id].(*types.PkgName); isPkg {
+										for _, ic := range sp.IgnoreCalls {
+											if ic == pn.Imported().Path()+"."+sel.Sel.Name {
+												blk.List[i] = &ast.EmptyStmt{Semicolon: st.Pos(), Implicit: false}
+											}
+										}
+									}
+								}
+							}
+						}
+					}
+				}
+			}
 			if call, isCall := n.(*ast.CallExpr); isCall {
+				if id, isId := call.Fun.(*ast.Ident); isId && len(call.Args) == 1 {
+					if fn, isFn := p.info.Uses[id].(*types.Func); isFn && fn.Pkg() != nil && strings.HasSuffix(fn.Pkg().Path(), "util") {
+						switch fn.Name() {
+						case "StringFromBytes":
+							call.Fun = &ast.Ident{Name: "string", NamePos: call.Pos()}
+						case "BytesFromString":
+							call.Fun = &ast.ArrayType{Lbrack: call.Pos(), Elt: &ast.Ident{Name: "byte"}}
+						}
+					}
+				}
 				if sel, isSel := call.Fun.(*ast.SelectorExpr); isSel {
 					if id, isId := sel.X.(*ast.Ident); isId {
 						if pn, isPkg := p.info.Uses[id].(*types.PkgName); isPkg && pn.Imported().Path() == "github.com/relex/slog-agent/util" {
